@@ -272,12 +272,15 @@ class Types:
             acc.setdefault(target.id, []).append(vt)
         elif isinstance(target, (ast.Tuple, ast.List)):
             for i, e in enumerate(target.elts):
-                sub = ANY
+                subs: List[T] = []
                 for m in members(vt):
                     if m[0] == "tuple" and i < len(m[1]) and not any(isinstance(x, ast.Starred) for x in target.elts):
-                        sub = m[1][i]
+                        subs.append(m[1][i])
                     elif m[0] in ("list", "set"):
-                        sub = m[1]
+                        subs.append(m[1])
+                    else:
+                        subs.append(ANY)
+                sub = union(subs) if subs else ANY
                 if isinstance(e, ast.Starred):
                     self._bind(e.value, ("list", sub), acc)
                 else:
